@@ -50,11 +50,19 @@ class IncrementalCell(Cell):
             metadata=metadata,
             _skip_validation=_skip_validation,
         )
-        if evaluation_date <= prev_evaluation_date and not _skip_validation:
+        # Store the date as a datetime.date object (dropping time component, if present), like Cell does
+        self._prev_evaluation_date = datetime.date(
+            prev_evaluation_date.year,
+            prev_evaluation_date.month,
+            prev_evaluation_date.day,
+        )
+        if (
+            self._evaluation_date <= self._prev_evaluation_date
+            and not _skip_validation
+        ):
             raise ValueError(
                 f"`evaluation_date` ({evaluation_date}) must be > `prev_evaluation_date` ({prev_evaluation_date})."
             )
-        self._prev_evaluation_date = prev_evaluation_date
 
     prev_evaluation_date = property(lambda self: self._prev_evaluation_date)
 
